@@ -152,6 +152,35 @@ theorem hasRuntimeBy_eq (κ : Nat → Kind) (cd : Nat → Bool) (t : GTy) (h : K
   | record fs => exact ⟨rfl, rfl⟩
   | enum vs => exact ⟨rfl, rfl⟩
 
+/-- does the runtime lookup (`get_runtime_drop` / `get_runtime_clone`, extracted kinds `pats`) find a
+    function for a type of kind `k` whose movability bit is `cd`? -/
+def rtFound (pats : List KPat) (k : Kind) (cd : Bool) : Bool :=
+  pats.any (·.matches k) && cloneDropOf k cd
+
+/-- `generate_drop_body`, kind by kind: the runtime drop function for String, List and
+    `CloneDrop` registered types; the field loop for records, the switch for enums; nothing for
+    the rest. The `ice!` arm (a List without a runtime drop function) is never reached. -/
+theorem dropBody_decided (k : Kind) (cd : Bool) :
+    dropBody.body (rtFound runtimeDropKinds k cd) k =
+      match k with
+      | .string | .list => .runtime
+      | .runtime => if cd then .runtime else .arm .ret
+      | .record => .arm .recordLoop
+      | .enum => .arm .enumSwitch
+      | .unit | .never | .prim => .arm .ret := by
+  cases k <;> cases cd <;> rfl
+
+/-- `generate_clone_body`: the same, with a `memcpy` for a registered `Copy` type. -/
+theorem cloneBody_decided (k : Kind) (cd : Bool) :
+    cloneBody.body (rtFound runtimeCloneKinds k cd) k =
+      match k with
+      | .string | .list => .runtime
+      | .runtime => if cd then .runtime else .arm .memcpyRet
+      | .record => .arm .recordLoop
+      | .enum => .arm .enumSwitch
+      | .unit | .never | .prim => .arm .ret := by
+  cases k <;> cases cd <;> rfl
+
 /-! ## Types without droppable leaves -/
 
 mutual
